@@ -354,7 +354,10 @@ func resizeImage(img image.Image, w int, h int, cellPixW int, cellPixH int) imag
 	newPixelHeight := hPix
 	switch {
 	case sfX == sfY:
-		// no-op
+		// both dimensions are equally far off: scale them by the common
+		// factor
+		newPixelWidth = int(sfX * float64(wPix))
+		newPixelHeight = int(sfX * float64(hPix))
 	case sfX < sfY:
 		// Width is farther off, so set our new width to w and scale h
 		// appropriately
